@@ -221,3 +221,26 @@ def run_type_ids(ck, F, rule="C11.union-type-id-translated"):
                             ck.bad(rule, "%s [%s]" % (root, ty), "%s indexes a %s with a union type id cast to usize: type ids are arbitrary i8 values (e.g. 70, 85), the vector has one "
                                    "entry per field, so this panics or picks the wrong field; translate through the type-id table as the encoder and the row grouping do"
                                    % (fn["id"], ty), b.loc(x))
+
+
+def run_rows_buffer(ck, F, rule="C11.rows-buffer-ends-at-last-offset"):
+    ck.rule(rule, "RowConverter::from_binary, which builds `Rows` from an externally supplied values buffer, ties the buffer's length to the last offset (truncate / "
+            "resize / split_off with an argument derived from the offsets): `append` grows the buffer from the last offset and relies on zeroed space", floor=1)
+    fid = "arrow_row::RowConverter::from_binary"
+    fn = F.resolve(fid)
+    if fn is None:
+        ck.missing_anchor(fid, rule)
+        return
+    b = Body(fn)
+    off = [t["dest"][0] for _, t in b.calls() if re.search(r"::(into_parts|offsets)$", callee(t) or "")]
+    tainted = b.taint(set(off), through_calls=True)
+    ok = False
+    for bb, t in b.calls():
+        if re.search(r"Vec(::<[^>]*>)?::(truncate|resize|split_off|drain|set_len)$", flow.norm(callee(t) or "")) and len(t["args"]) > 1:
+            if any(l in tainted for l in operand_locals(t["args"][1])):
+                ok = True
+    if ok:
+        ck.ok(rule, "from_binary", "buffer length derived from the offsets")
+    else:
+        ck.bad(rule, "from_binary", "RowConverter::from_binary keeps the whole values buffer of the BinaryArray: for an array sliced at its head the buffer is longer than the "
+               "last offset, and rows appended later are written over stale bytes (a null row is no longer byte-equal to a fresh null row)", "%s:%s" % (fn["file"], fn["line"]))
